@@ -289,9 +289,10 @@ def paramsFromIos (o : OStream) : Params × OStream :=
      width := o.width },                                                                          -- :111
    { o with width := 0 })                                                                         -- :114
 
-/-- `gmp_allocated_string t (result)` (gmp-impl.h:4562-4575): `len = strlen (str)`, so what is written stops at the
-    first NUL of the formatted text (only a NUL fill character can put one there) -/
-def cstr (t : List Char) : List Char := t.takeWhile (· ≠ '\x00')
+/-- `gmp_allocated_string t (result, d.size)` (gmp-impl.h, after /repo 2def0d3): the length is the formatted length, so the
+    whole text is written, NUL fill characters included (before that repair `len = strlen (str)` cut the text at the first
+    NUL and gave the free function the wrong size).  Kept as a named identity so that the layout statements read as before. -/
+def cstr (t : List Char) : List Char := t
 
 /-- `__gmp_doprnt_integer_ostream (o, p, s)` (osdoprnti.cc:40-58): `p->prec = -1`, format, `o.write (t.str, t.len)` -/
 def doprntIntegerOstream (o : OStream) (p : Params) (s : List Char) : OStream :=
